@@ -63,7 +63,7 @@ Proof.
   rewrite (scan_comment t rest H).
   unfold comment_ok in H. apply andb_true_iff in H. destruct H as [H H3]. apply andb_true_iff in H. destruct H as [_ H2].
   apply negb_true_iff in H2, H3. rewrite <- has_sub_contains. change s_dashdash with [45; 45]. rewrite H2.
-  unfold ends_with_dash. rewrite H3. reflexivity.
+  unfold ends_with_dash. rewrite lrev_rev, H3. reflexivity.
 Qed.
 
 Lemma content_comment : forall f sc pp pl t tail ch cnt rest, comment_ok t = true ->
